@@ -215,7 +215,58 @@ def http_sweep():
                 bad.append("fetch_file raises DataAccessError on status 200")
         except Exception as x:
             bad.append(f"fetch_file with status {status}: {type(x).__name__} escapes")
+    bad += _gzip_static_loopback()
     return _res(bad)
+
+
+def _gzip_static_loopback():
+    """a real requests session against a loopback server that serves <name>.gz under <name> with
+    'Content-Encoding: gzip', as docs/serving-data.rst prescribes (nginx gzip_static / Apache AddEncoding):
+    the accessor must return the file's bytes, not the gzip stream"""
+    import gzip
+    import http.server
+    import threading
+    from neuroglancer_scripts.http_accessor import HttpAccessor
+    payload = bytes(range(256)) * 2
+    files = {"/ds/k/0-8_0-8_0-8": (gzip.compress(payload), True), "/ds/info": (b'{"scales": []}', False)}
+
+    class H(http.server.BaseHTTPRequestHandler):
+        def do_GET(self):
+            ent = files.get(self.path)
+            if ent is None:
+                self.send_error(404)
+                return
+            self.send_response(200)
+            if ent[1]:
+                self.send_header("Content-Encoding", "gzip")
+            self.send_header("Content-Length", str(len(ent[0])))
+            self.end_headers()
+            self.wfile.write(ent[0])
+
+        def log_message(self, *a):
+            pass
+    bad = []
+    try:
+        srv = http.server.ThreadingHTTPServer(("127.0.0.1", 0), H)
+    except OSError:
+        return bad                                   # no loopback interface: scenario skipped
+    th = threading.Thread(target=srv.serve_forever, daemon=True)
+    th.start()
+    try:
+        acc = HttpAccessor(f"http://127.0.0.1:{srv.server_address[1]}/ds")
+        try:
+            got = acc.fetch_chunk("k", (0, 8, 0, 8, 0, 8))
+            if got != payload:
+                bad.append(f"fetch_chunk of a chunk served with Content-Encoding: gzip returns {len(got)} bytes starting {bytes(got[:2]).hex()} "
+                           f"instead of the {len(payload)} bytes of the file")
+            if acc.fetch_file("info") != files["/ds/info"][0]:
+                bad.append("fetch_file('info') over a loopback server returns other bytes than served")
+        except Exception as e:
+            bad.append(f"reading from a loopback static server (gzip_static emulation) raises {e!r}")
+    finally:
+        srv.shutdown()
+        srv.server_close()
+    return bad
 
 
 def dispatch_sweep():
@@ -228,6 +279,7 @@ def dispatch_sweep():
              "plain": ({"type": "image", "data_type": "uint8", "num_channels": 1, "scales": [sc]}, False),
              "mesh info without scales": ({"@type": "neuroglancer_legacy_mesh"}, False),
              "empty scales": ({"type": "image", "data_type": "uint8", "num_channels": 1, "scales": []}, False),
+             "explicit null sharding": ({"type": "image", "data_type": "uint8", "num_channels": 1, "scales": [dict(sc, sharding=None)]}, False),
              "mixed": ({"type": "image", "data_type": "uint8", "num_channels": 1, "scales": [sc, dict(sc, key="k2", sharding=sh)]}, False)}
     bad = []
     for label, (info, want_sharded) in infos.items():
